@@ -35,6 +35,18 @@ CHECKS["C12"] = dict(cat="exploration", tech="Hypothesis-generated run histories
 CHECKS["C01"] = dict(cat="exploration", tech="grammar-based generation from a typed SQL IR (bounded-exhaustive skeleton product + Hypothesis random statements) against an independent reference table semantics, per accepting dialect, with a parse-shape guard",
     text="Statements are IR values, so the expected source/target tables are known without asking sqllineage; every combination of statement kind x FROM shape x subquery position x nesting (thorough: all, under all 28 dialects that accept it; quick: a seeded fifth under ansi + 2 rotating dialects) plus random statements to depth 2-3 must report exactly the expected tables. Complete within the skeleton bound, sampled beyond.",
     ref="DESIGN.md section 4 C01")
+CHECKS["C02"] = dict(cat="exploration", tech="grammar-based generation from a typed SQL IR (bounded-exhaustive skeleton product + Hypothesis random statements) against an independent scope-resolution reference semantics for column dataflow",
+    text="Every combination of select-item kind x scope shape x nesting x set-operation arity x explicit column list (2.4k skeletons; quick: a seeded fifth) and random statements to expression depth 3 must report exactly the (root, target column) pairs the IR's dataflow gives, per accepting dialect. The generator is restricted to where the property determines the answer; known-defect shapes are excluded by construction and replayed from the findings file.",
+    ref="DESIGN.md section 4 C02")
+CHECKS["C06"] = dict(cat="exploration", tech="invariant (validity-predicate) checking over every result of a generated + harvested result pool, through public accessors and the public graph assembler",
+    text="Path well-formedness, leaf/root/table-level consistency and combined-graph retrievability/ownership invariants are evaluated on every result of the corpus (own dialect and ansi, with test metadata), TPC-DS and generated scripts. Sampled inputs, invariants complete per result.",
+    ref="DESIGN.md section 4 C06")
+CHECKS["C09"] = dict(cat="exploration", tech="differential testing across 28 sqlfluff dialects and the sqlparse analyzer on Hypothesis-generated core IR statements, arbitrated by the IR reference semantics, with a per-dialect parse-shape guard",
+    text="Each generated core statement is analysed under every dialect whose own parser accepts it and under the legacy analyzer; tables and column pairs (tables only for the legacy analyzer) must agree; the side that differs from the IR reference is reported. Sampled (quick ~190 statements x up to 29 configurations).",
+    ref="DESIGN.md section 4 C09")
+CHECKS["C18"] = dict(cat="exploration", tech="invariant (validity-predicate) checking of both export levels, the text summary and the /lineage route over a generated + harvested result pool",
+    text="Unique ids, referential integrity of edges and compound parents, table nodes == summaries, column edges == hops of all reported paths, parent == owner, sorted duplicate-free text summary and route/runner agreement are evaluated on every result of the pool. Sampled inputs, invariants complete per result.",
+    ref="DESIGN.md section 4 C18")
 NA = {}
 def main():
     props = [json.loads(l)["id"] for l in open(os.path.join(HOME, "properties.jsonl"))]
